@@ -363,23 +363,71 @@ def kmer_iter_override_table(F, rep, rule="C13.2"):
         return repr(v)
 
     for adt, ctor in (("KmerIter", "Vmer::iter_kmers"), ("KmerExtsIter", "Vmer::iter_kmer_exts")):
-        pre = "<%s<'a, K, D> as std::iter::Iterator>::" % adt
-        over = {k[len(pre):]: b for k, b in F.fns.items() if k.startswith(pre) and "{closure" not in k and "::" not in k[len(pre):]}
-        nxt = over.pop("next", None)
-        over.pop("size_hint", None)
-        cbody = F.fns.get(ctor)
-        if not over:
-            continue
-        if nxt is None or cbody is None:
-            rep.inconclusive(rule, adt + "/overrides", "%s overrides %s; its constructor / next() could not be located" % (adt, sorted(over)))
-            continue
-
-        def fresh(h, a):
-            it = Interp(F, False, h)
+        def ctor_args(adt=adt):
             args = [Ref(Cell(Opaque("D", {"the-seq"}), "seq"))]
             if adt == "KmerExtsIter":
                 args.append(Opaque(EXTS, {"exts"}, {"exts": "caller"}))
-            cell = Cell(it.call_body(cbody, args), "iter")
+            return args
+        _override_rows(F, rep, rule, adt, "<%s<'a, K, D> as std::iter::Iterator>::" % adt, F.fns.get(ctor), ctor_args, H, show, N,
+                       "sequence of %d k-mers, K = %d" % (N, K))
+
+
+def node_iter_override_table(F, rep, rule="C18.9"):
+    """the same for the iterators over the nodes of a graph (`iter_nodes()`, `for n in &graph`) on a graph of 4 nodes"""
+    N = 4
+
+    class H(Oracles):
+        def __init__(self):
+            Oracles.__init__(self, [])
+            self.items = []
+
+        def on_call(self, it, fn, args, dest_ty, term, caller):
+            path = fn.get("path", "")
+            name = path.split("::")[-1]
+            if is_print_call(fn):
+                return Opaque(dest_ty, {"fmt"})
+            if (path.startswith("graph::DebruijnGraph") or path.startswith("graph::BaseGraph")) and name == "len":
+                return Int(64, False, val=N)
+            if "PackedDnaStringSet" in path and name == "get" and len(args) == 2:
+                i = args[1].val if isinstance(args[1], Int) and args[1].is_conc() else None
+                if i is None or i >= N:
+                    raise Diverge("sequence %r of a graph of %d nodes" % (args[1], N))
+                return Opaque("DnaStringSlice", {"seq"}, {"node-seq": i})
+            if name in ("call", "call_mut", "call_once") and args and isinstance(recv(it, args[0]), Opaque) and "callback" in tags_of(recv(it, args[0])):
+                tup = args[1]
+                vals = list(tup.fields) if isinstance(tup, Tup) else [tup]
+                self.items.append(show(vals[-1]))
+                return Int(64, False, val=len(self.items)) if len(vals) == 2 else Tup([])
+            return NotImplemented
+
+    def show(v):
+        if isinstance(v, Adt):
+            ids = [f.val for f in v.fields if isinstance(f, Int) and f.is_conc()] + \
+                  ["seq-of-node-%s" % f.info["node-seq"] for f in v.fields if isinstance(f, Opaque) and "node-seq" in f.info]
+            return (v.name.split("::")[-1], tuple(ids))
+        return repr(v)
+
+    def ctor_args():
+        return [Ref(Cell(Opaque("graph::DebruijnGraph", {"the-graph"}), "graph"))]
+    for adt, ctor in (("graph::NodeIter", "graph::DebruijnGraph::<K, D>::iter_nodes"),
+                      ("graph::NodeIntoIter", "<&'a graph::DebruijnGraph<K, D> as std::iter::IntoIterator>::into_iter")):
+        _override_rows(F, rep, rule, adt.split("::")[-1], "<%s<'a, K, D> as std::iter::Iterator>::" % adt, F.fns.get(ctor), ctor_args, H, show, N, "graph of %d nodes" % N)
+
+
+def _override_rows(F, rep, rule, adt, pre, cbody, ctor_args, H, show, N, what):
+    if True:
+        over = {k[len(pre):]: b for k, b in F.fns.items() if k.startswith(pre) and "{closure" not in k and "::" not in k[len(pre):]}
+        nxt = over.pop("next", None)
+        over.pop("size_hint", None)
+        if not over:
+            return
+        if nxt is None or cbody is None:
+            rep.inconclusive(rule, adt + "/overrides", "%s overrides %s; its constructor / next() could not be located" % (adt, sorted(over)))
+            return
+
+        def fresh(h, a):
+            it = Interp(F, False, h)
+            cell = Cell(it.call_body(cbody, ctor_args()), "iter")
             got = []
             for _ in range(a):
                 r = it.call_body(nxt, [Ref(cell)])
@@ -443,12 +491,13 @@ def kmer_iter_override_table(F, rep, rule="C13.2"):
                     except Diverge as e:
                         problems.append("after %d item(s), %s%s panics: %s" % (a, m, "(%d)" % j if j is not None else "", e))
             if problems:
-                rep.violated(rule, key, "%s overrides Iterator::%s (sequence of %d k-mers, K = %d): %s" % (adt, m, N, K, problems[0]), site=F.site(body, body["line"]),
+                rep.violated(rule, key, "%s overrides Iterator::%s (%s): %s" % (adt, m, what, problems[0]), site=F.site(body, body["line"]),
                              witness={"kind": "row", "count": len(problems)})
             elif inc:
                 rep.inconclusive(rule, key, "%s overrides Iterator::%s: %s" % (adt, m, inc[0]))
             else:
-                rep.holds(rule, key, "the overridden %s agrees with next() from every cursor 0..%d of a %d-k-mer sequence" % (m, N + 1, N))
+                rep.holds(rule, key, "the overridden %s agrees with next() from every cursor 0..%d (%s)" % (m, N + 1, what))
+
 
 
 # =========================================================================== C13.4 / C13.5 accessors
